@@ -161,6 +161,10 @@ pub fn adt_def(u: &Universe, d: &AdtDef) -> String {
             s.push_str("}\n");
         }
     }
+    if d.name == "DropAudit" {
+        // a user type whose safe Drop reads the data it holds (borrowed, in an ε-copy result)
+        s.push_str("impl<A: AsRef<[u64]>> Drop for DropAudit<A> {\n    fn drop(&mut self) {\n        voracles::audit::record(self.a.as_ref());\n    }\n}\n");
+    }
     s
 }
 
